@@ -170,8 +170,8 @@ pub fn dispatch(kind: &str, v: &Value) -> Option<Outcome> {
     }
 }
 
-pub fn run(ctx: &Ctx) -> i32 {
-    let mut st = ctx.run_replays(&dispatch);
+pub fn campaigns(ctx: &Ctx) -> Stats {
+    let mut st = Stats::default();
     let t = ctx.tier;
     let iff = iff_cases();
     st.merge(ctx.run_indexed("result-tracked-iff-an-operand-is", iff.len() as u64, Some("every built-in operation (all parameterisations of matmul incl. the additive term, conv, element-wise, unary, reductions, reshape) x every tracked/untracked assignment of its operands: result tracked <=> some operand tracked; with all operands untracked each operand can be moved into a Vec while the result is alive"), |i| Some(Case9::I(iff[i as usize].clone()))));
@@ -180,6 +180,12 @@ pub fn run(ctx: &Ctx) -> i32 {
         let cfg = cfg_for(t, exact);
         st.merge(ctx.run_prop(name, total / 2, move || recipe_strategy(len), move |r| Some(Case9::H(HistCase { oracle: "c09".into(), hist: elaborate(&cfg, r) }))));
     }
+    st
+}
+
+pub fn run(ctx: &Ctx) -> i32 {
+    let mut st = ctx.run_replays(&dispatch);
+    st.merge(campaigns(ctx));
     if ctx.tier == Tier::Thorough {
         st.merge(ctx.run_fuzz(20000, ctx.threads, &dispatch));
     }
